@@ -407,8 +407,15 @@ func prepareCorrectionOptions(o *CorrectionOptions, opts ...schema.Option) error
 
 	// If we have a raw json object, this will override any of the other options
 	if len(o.data) > 0 {
+		// stamps in the raw object replace the list: decoded on top of it, each
+		// would be merged into the stamp that happens to be at the same position
+		stamps := o.Stamps
+		o.Stamps = nil
 		if err := json.Unmarshal(o.data, o); err != nil {
 			return fmt.Errorf("failed to unmarshal correction options: %w", err)
+		}
+		if o.Stamps == nil {
+			o.Stamps = stamps
 		}
 	}
 
